@@ -462,7 +462,11 @@ func (r *FnRun) execUnOp(st *State, x *ssa.UnOp) {
 	case token.MUL: // load
 		if g, ok := x.X.(*ssa.Global); ok {
 			if id, ok := r.W.Sentinels[g]; ok {
-				st.vals[x] = Val{K: KIface, T: x.Type(), Tag: fmt.Sprint(r.W.tagFor(types.NewPointer(types.Typ[types.Invalid]))), Pay: sx("obj", sInt(int64(-1000000-id)))}
+				tagT := types.Type(types.NewPointer(types.Typ[types.Invalid]))
+				if dt := r.W.SentinelType[g]; dt != nil {
+					tagT = dt
+				}
+				st.vals[x] = Val{K: KIface, T: x.Type(), Tag: fmt.Sprint(r.W.tagFor(tagT)), Pay: sx("obj", sInt(int64(-1000000-id)))}
 				r.Assump["package-level error sentinels initialised by errors.New are distinct, non-nil and never reassigned (checked: one store, in init)"] = true
 				return
 			}
